@@ -51,6 +51,14 @@ CHECKS = {
         "outside": "ExC2 endpoints registered through the teamserver (not removed on disconnect: see DESIGN.md), built-in listener registry (not built in this revision), real http.Server shutdown",
         "min_completed": 3,
     },
+    "C12": {
+        "groups": [
+            {"pkg": "Havoc/pkg/handlers", "with": ["Havoc/pkg/agent"] + AGENT_WITH, "entries": ["H_c12_admission"], "flags": ["-tags", "c12"], "shards": 4},
+        ],
+        "bounds": "URIs: none / [\"\"] / one / two configured, request URI '/'+1 arbitrary byte; User-Agent set/unset ('UA'+1 byte) and present/absent in the request; request headers: none, one required header with a 2-byte arbitrary value (may contain ':' and blanks), with ignored headers in either case; response headers: none / one / two with a 3-byte arbitrary value (may contain ':'); redirector flag; IPv4 and IPv6 peers.",
+        "outside": "gin routing and method dispatch (POST/GET registration), net/http, TLS, the bytes of 404.html; header names are concrete",
+        "min_completed": 3,
+    },
     "C11": {
         "groups": [
             {"pkg": "Havoc/cmd/server", "with": SRV_WITH, "entries": ["H_c11_append", "H_c11_replay", "H_c11_fanout", "H_c11_fault"], "no_native_witness": True, "no_native_replay": True},
@@ -125,6 +133,8 @@ LEVELS = {
             "note": "os.* = effect recorder with the documented contracts; loot root fixed; names beyond the bound outside."},
     "C16": {"text": "Bounded symbolic execution of service.ClientClose from every small ownership configuration; position of the closing connection and ownership vectors are decided exhaustively through the engine.",
             "note": "Only the third-party service registry is covered in this revision."},
+    "C12": {"text": "Bounded symbolic execution of the real (*HTTP).request with real net/http header canonicalisation and strings code over symbolic header/URI/user-agent values; the protocol layer is a recorder, so 'reached' is observed exactly.",
+            "note": "gin.Context is built directly (no router); parseAgentRequest stubbed as recorder inside gosx."},
     "C11": {"text": "Bounded symbolic execution of the real event log / replay / fan-out / SendEvent code with the websocket write as a fault-injecting recorder; the fault sequence is a symbolic variable, and a mutex left held after any send is reported by the engine's lock model.",
             "note": "websocket, JSON encoder and DB are stubs; single-threaded (interleavings of concurrent broadcasters are outside)."},
     "C06": {"text": "Bounded symbolic execution of the real handleRequest/ClientAuthenticate/EventBroadcast decision logic over an arbitrary first Package (the image of json.Unmarshal), with SHA3 as an injective digest.",
